@@ -109,6 +109,34 @@ def showTr (l : List Tr) : String :=
   if es.isEmpty then "-" else
   ";".intercalate (es.map fun (p, d, k, t) => s!"{pathStr p}|{if d then "d" else "l"}|{k}|{t}")
 
+/-! merge result with ties canonicalised (see harness/src/c12.rs): a node whose group holds several *differing*
+    nodes of maximal key is printed as `path|T|key|c+c+…` (candidate codes `2*tag + isdir`, sorted), its children only
+    if every candidate is a directory.  The model's own tie-break (tree order) is one of the admissible choices. -/
+
+def insertSorted (x : Nat) : List Nat → List Nat
+  | [] => [x]
+  | y :: ys => if x < y then x :: y :: ys else if x = y then y :: ys else y :: insertSorted x ys
+
+def code (t : Tr) : Nat := 2 * t.tag + (if t.isDir then 1 else 0)
+
+partial def mergeListing (pre : List Nat) (res : List Tr) (ins : List (List Tr)) : List String :=
+  res.flatMap fun r =>
+    let grp := ins.filterMap (find r.name)
+    let mk := grp.foldl (fun m t => max m t.key) 0
+    let cands := ((grp.filter (·.key == mk)).map code).foldr insertSorted []
+    let p := pre ++ [r.name]
+    let subIns := (grp.filter (·.isDir)).map (·.sub)
+    if cands.length > 1 && cands.contains (code r) && r.key == mk then
+      s!"{pathStr p}|T|{mk}|{"+".intercalate (cands.map toString)}" ::
+        (if cands.all (· % 2 == 1) then mergeListing p r.sub subIns else [])
+    else
+      s!"{pathStr p}|{if r.isDir then "d" else "l"}|{r.key}|{r.tag}" ::
+        (if r.isDir then mergeListing p r.sub subIns else [])
+
+def showMerged (res : List Tr) (ins : List (List Tr)) : String :=
+  let es := mergeListing [] res ins
+  if es.isEmpty then "-" else ";".intercalate es
+
 mutual
 def listRT (pre : String) : RT → List String
   | .file n _ _ size content sfx =>
@@ -160,13 +188,15 @@ def handle : List String → String
       | none => "bad-op"
       | some ts =>
         if !(ts.all allSorted) then "unsorted" else
-        s!"ok {showTr (mergeTrees 64 ts)}"
-    else if op = "rewrite" then
+        s!"ok {showMerged (mergeTrees 64 ts) ts}"
+    else if op = "rewrite" || op = "rewrite2" then
       let xs := model.takeWhile (fun t => t.startsWith "x:")
       match parseEx xs, parseTrees (model.drop xs.length) with
       | some ex, some ts =>
         let exf := fun (p : List Nat) (d : Bool) => ex.contains (p, d)
-        "ok " ++ " # ".intercalate (ts.map (fun t => showTr (rewrite exf t)))
+        -- `rewrite2`: the same rewrite applied to its own result
+        let rw := fun t => if op = "rewrite2" then rewrite exf (rewrite exf t) else rewrite exf t
+        "ok " ++ " # ".intercalate (ts.map (fun t => showTr (rw t)))
       | _, _ => "bad-op"
     else if op = "repair" then
       let hs := model.takeWhile (fun t => t.startsWith "h:")
